@@ -92,3 +92,52 @@ Definition shapes_arb : list (string * list string) := [
   ("arbitrary::Arbitrary<'a> for webauthn::PublicKeyCredentialUserEntity::arbitrary", ["?"; "call arbitrary_bytes"; "if"; "?"; "call bool::arbitrary"; "call Some"; "?"; "call arbitrary_str"; "path None"; "if"; "?"; "call bool::arbitrary"; "call Some"; "?"; "call arbitrary_str"; "path None"; "if"; "?"; "call bool::arbitrary"; "call Some"; "?"; "call arbitrary_str"; "path None"; "call Ok"; "struct Self"])
 ].
 
+Definition shapes_tables_op : list (string * list string) := [
+  ("operation::From<Operation> for u8::from", ["match"; "int 1"; "int 2"; "int 8"; "int 4"; "int 6"; "int 7"; "int 9"; "int 10"; "int 11"; "int 12"; "int 13"; "int 64"; "int 65"; "pat Vendor"; ".into"]);
+  ("operation::Operation::into_u8", [".into"]);
+  ("operation::TryFrom<u8> for VendorOperation::try_from", ["match"; "pat range"; "path Self::FIRST"; "path Self::LAST"; "call Ok"; "call VendorOperation"; "pat _"; "call Err"]);
+  ("operation::From<VendorOperation> for u8::from", []);
+  ("operation::TryFrom<u8> for Operation::try_from", ["call Ok"; "match"; "int 1"; "path MakeCredential"; "int 2"; "path GetAssertion"; "int 8"; "path GetNextAssertion"; "int 4"; "path GetInfo"; "int 6"; "path ClientPin"; "int 7"; "path Reset"; "int 9"; "path BioEnrollment"; "int 10"; "path CredentialManagement"; "int 11"; "path Selection"; "int 12"; "path LargeBlobs"; "int 13"; "path Config"; "int 64"; "path PreviewBioEnrollment"; "int 65"; "path PreviewCredentialManagement"; "pat range"; "path VendorOperation::FIRST"; "path VendorOperation::LAST"; "call Vendor"; "?"; "call VendorOperation::try_from"; "pat _"; "return"; "call Err"])
+].
+
+Definition shapes_tables_req : list (string * list string) := [
+  ("ctap2::make_credential::TryFrom<u8> for CredentialProtectionPolicy::try_from", ["call Ok"; "match"; "int 1"; "path CredentialProtectionPolicy::Optional"; "int 2"; "path CredentialProtectionPolicy::OptionalWithCredentialIdList"; "int 3"; "path CredentialProtectionPolicy::Required"; "pat _"; "return"; "call Err"; "path Error::InvalidParameter"]);
+  ("ctap2::From<AttestationStatementFormat> for &str::from", ["match"; "pat AttestationStatementFormat::None"; "path AttestationStatementFormat::NONE"; "pat AttestationStatementFormat::Packed"; "path AttestationStatementFormat::PACKED"]);
+  ("ctap2::TryFrom<&str> for AttestationStatementFormat::try_from", ["match"; "pat Self::NONE"; "call Ok"; "path Self::None"; "pat Self::PACKED"; "call Ok"; "path Self::Packed"; "pat _"; "call Err"; "path TryFromStrError"])
+].
+
+Definition shapes_tables_info : list (string * list string) := [
+  ("ctap2::get_info::From<Version> for &str::from", ["match"; "pat Version::Fido2_0"; "path Version::FIDO_2_0"; "pat Version::Fido2_1"; "path Version::FIDO_2_1"; "pat Version::Fido2_1Pre"; "path Version::FIDO_2_1_PRE"; "pat Version::U2fV2"; "path Version::U2F_V2"]);
+  ("ctap2::get_info::TryFrom<&str> for Version::try_from", ["match"; "pat Self::FIDO_2_0"; "call Ok"; "path Self::Fido2_0"; "pat Self::FIDO_2_1"; "call Ok"; "path Self::Fido2_1"; "pat Self::FIDO_2_1_PRE"; "call Ok"; "path Self::Fido2_1Pre"; "pat Self::U2F_V2"; "call Ok"; "path Self::U2fV2"; "pat _"; "call Err"; "path TryFromStrError"]);
+  ("ctap2::get_info::From<Extension> for &str::from", ["match"; "pat Extension::CredProtect"; "path Extension::CRED_PROTECT"; "pat Extension::HmacSecret"; "path Extension::HMAC_SECRET"; "pat Extension::LargeBlobKey"; "path Extension::LARGE_BLOB_KEY"; "pat Extension::ThirdPartyPayment"; "path Extension::THIRD_PARTY_PAYMENT"]);
+  ("ctap2::get_info::TryFrom<&str> for Extension::try_from", ["match"; "pat Self::CRED_PROTECT"; "call Ok"; "path Self::CredProtect"; "pat Self::HMAC_SECRET"; "call Ok"; "path Self::HmacSecret"; "pat Self::LARGE_BLOB_KEY"; "call Ok"; "path Self::LargeBlobKey"; "pat Self::THIRD_PARTY_PAYMENT"; "call Ok"; "path Self::ThirdPartyPayment"; "pat _"; "call Err"; "path TryFromStrError"]);
+  ("ctap2::get_info::From<Transport> for &str::from", ["match"; "pat Transport::Nfc"; "path Transport::NFC"; "pat Transport::Usb"; "path Transport::USB"]);
+  ("ctap2::get_info::TryFrom<&str> for Transport::try_from", ["match"; "pat Self::NFC"; "call Ok"; "path Self::Nfc"; "pat Self::USB"; "call Ok"; "path Self::Usb"; "pat _"; "call Err"; "path TryFromStrError"])
+].
+
+Definition shapes_accessors : list (string * list string) := [
+  ("ctap2::AttestationFormatsPreference::known_formats", []);
+  ("ctap2::AttestationFormatsPreference::includes_unknown_formats", []);
+  ("webauthn::PublicKeyCredentialUserEntity::from", ["struct Self"; "path None"; "path None"; "path None"]);
+  ("webauthn::PublicKeyCredentialParameters::public_key_with_alg", ["struct Self"; "call String::from"; "str public-key"])
+].
+
+Definition shapes_builders : list (string * list string) := [
+  ("ctap2::get_assertion::ResponseBuilder::build", ["struct Response"; "path None"; "path None"; "path None"; "path None"; "path None"; "path None"; "path None"]);
+  ("ctap2::get_info::Default for Response::default", ["call Vec::new"; ".resize_default"; "int 16"; ".unwrap"; "call Bytes::from"; "struct ResponseBuilder"; "call Vec::new"; ".build"; "assign"; "call Some"; "call CtapOptions::default"]);
+  ("ctap2::get_info::ResponseBuilder::build", ["struct Response"; "path None"; "path None"; "path None"; "path None"; "path None"; "path None"; "path None"; "path None"; "path None"; "path None"; "path None"; "path None"; "path None"; "path None"; "path None"; "path None"; "path None"; "path None"; "path None"; "path None"; "path None"; "path None"]);
+  ("ctap2::get_info::Default for CtapOptions::default", ["struct Self"; "path None"; "bool false"; "bool true"; "path None"; "path None"; "path None"; "path None"; "path None"; "path None"; "path None"; "path None"; "path None"; "path None"; "path None"; "path None"; "path None"; "path None"; "path None"; "path None"]);
+  ("ctap2::make_credential::ResponseBuilder::build", ["struct Response"; "path None"; "path None"; "path None"; "path None"])
+].
+
+Definition shapes_arb_requests : list (string * list string) := [
+  ("arbitrary::Arbitrary<'a> for ctap1::authenticate::Request::arbitrary", ["?"; "call Arbitrary::arbitrary"; "?"; ".bytes"; "int 32"; ".try_into"; ".unwrap"; "?"; ".bytes"; "int 32"; ".try_into"; ".unwrap"; "?"; "call Arbitrary::arbitrary"; "call Ok"; "struct Self"]);
+  ("arbitrary::Arbitrary<'a> for ctap1::register::Request::arbitrary", ["?"; ".bytes"; "int 32"; ".try_into"; ".unwrap"; "?"; ".bytes"; "int 32"; ".try_into"; ".unwrap"; "call Ok"; "struct Self"]);
+  ("arbitrary::Arbitrary<'a> for ctap2::AttestationFormatsPreference::arbitrary", ["?"; "call arbitrary_vec"; "?"; ".arbitrary"; "call Ok"; "struct Self"]);
+  ("arbitrary::Arbitrary<'a> for ctap2::client_pin::Request::arbitrary", ["?"; ".arbitrary"; "?"; ".arbitrary"; "?"; "call arbitrary_option"; "if"; "?"; "call bool::arbitrary"; "call Some"; "call Bytes::new"; "?"; ".arbitrary"; "path None"; "if"; "?"; "call bool::arbitrary"; "call Some"; "call Bytes::new"; "?"; ".arbitrary"; "path None"; "if"; "?"; "call bool::arbitrary"; "call Some"; "call Bytes::new"; "?"; ".arbitrary"; "path None"; "?"; ".arbitrary"; "?"; ".arbitrary"; "?"; ".arbitrary"; "?"; ".arbitrary"; "call Ok"; "struct Self"]);
+  ("arbitrary::Arbitrary<'a> for ctap2::credential_management::Request::arbitrary", ["?"; ".arbitrary"; "?"; ".arbitrary"; "?"; ".arbitrary"; "if"; "?"; "call bool::arbitrary"; "call Some"; "call Bytes::new"; "?"; ".arbitrary"; "path None"; "call Ok"; "struct Self"]);
+  ("arbitrary::Arbitrary<'a> for ctap2::get_assertion::Request::arbitrary", ["?"; ".arbitrary"; "call Bytes::new"; "?"; ".arbitrary"; "?"; "call arbitrary_option"; "?"; ".arbitrary"; "?"; ".arbitrary"; "if"; "?"; "call bool::arbitrary"; "call Some"; "call Bytes::new"; "?"; ".arbitrary"; "path None"; "?"; ".arbitrary"; "?"; ".arbitrary"; "?"; ".arbitrary"; "call Ok"; "struct Self"]);
+  ("arbitrary::Arbitrary<'a> for ctap2::large_blobs::Request::arbitrary", ["?"; ".arbitrary"; "if"; "?"; "call bool::arbitrary"; "call Some"; "call Bytes::new"; "?"; ".arbitrary"; "path None"; "?"; ".arbitrary"; "?"; ".arbitrary"; "if"; "?"; "call bool::arbitrary"; "call Some"; "call Bytes::new"; "?"; ".arbitrary"; "path None"; "?"; ".arbitrary"; "call Ok"; "struct Self"]);
+  ("arbitrary::Arbitrary<'a> for ctap2::make_credential::Request::arbitrary", ["call Bytes::new"; "?"; ".arbitrary"; "?"; ".arbitrary"; "?"; ".arbitrary"; "?"; ".arbitrary"; "?"; "call arbitrary_option"; "?"; ".arbitrary"; "?"; ".arbitrary"; "if"; "?"; "call bool::arbitrary"; "call Some"; "call Bytes::new"; "?"; ".arbitrary"; "path None"; "?"; ".arbitrary"; "?"; ".arbitrary"; "?"; ".arbitrary"; "call Ok"; "struct Self"])
+].
+
